@@ -10,6 +10,16 @@
 using namespace vh;
 
 namespace {
+
+    std::vector<std::string> const c06_focus = {"mutex::lock", "mutex::unlock", "mutex::try_lock", "timed_mutex", "condition_variable::wait", "condition_variable::notify_one", "recursive_mutex", "spinlock", "execution_agent::do_yield", "set_thread_state"};
+    struct FocusInit
+    {
+        FocusInit()
+        {
+            for (auto& s : c06_focus) focus_patterns().push_back(s);
+        }
+    } focus_init;
+
     using rmutex = pika::detail::recursive_mutex_impl<>;
 
 
@@ -88,8 +98,12 @@ namespace {
         G.occupancy--;
     }
 
+    // deadline (virtual steady clock) of the most recently started timed lock attempt: an owner may aim its
+    // unlock at it, so that the hand-over races with the timed waiter giving up
+    std::chrono::steady_clock::time_point g_timed_deadline{};
+
     template <typename M>
-    void plain_section(M& m, int me, int kind, int yields, int sleep_us, bool allow_yield)
+    void plain_section(M& m, int me, int kind, int yields, int sleep_us, bool allow_yield, int aim = 0)
     {
         G.blocked_lockers++;
         m.lock();
@@ -100,6 +114,22 @@ namespace {
             yield_here(kind, yields);
             if (sleep_us > 0 && kind == PARTY_TASK)
                 task_sleep_us(sleep_us);
+            if ((aim & 1) && g_timed_deadline > std::chrono::steady_clock::now())
+            {
+                // hold the lock until a drawn distance (-300 .. +1800 ns) from that deadline: coarse approach with
+                // yields (at most 3000), the last 5 us by reading the clock only (every read is a schedule point
+                // and advances virtual time by one quantum)
+                auto target = g_timed_deadline + std::chrono::nanoseconds((((aim >> 1) & 7) - 1) * 300);
+                for (int i = 0; i < 3000 && std::chrono::steady_clock::now() + std::chrono::microseconds(5) < target; i++)
+                {
+                    if (kind == PARTY_TASK)
+                        pika::this_thread::yield();
+                    else
+                        std::this_thread::yield();
+                }
+                for (int i = 0; i < 20000 && std::chrono::steady_clock::now() < target; i++) {}
+                probe("unlock_aimed_at_timed_deadline");
+            }
         }
         leave(me);
         m.unlock();
@@ -149,7 +179,7 @@ namespace {
                     m.unlock();
                 }
                 else
-                    plain_section(m, me, kind, a, b, allow_yield);
+                    plain_section(m, me, kind, a, b, allow_yield, std::is_same_v<M, pika::timed_mutex> ? (int) op.v[4] : 0);
                 break;
             case OP_TRY_CS:
                 if constexpr (std::is_same_v<M, rmutex>)
@@ -169,6 +199,7 @@ namespace {
             case OP_TIMED_UNTIL_CS:
                 if constexpr (std::is_same_v<M, pika::timed_mutex>)
                 {
+                    g_timed_deadline = std::chrono::steady_clock::now() + std::chrono::microseconds(a);
                     bool ok = op.v[1] == OP_TIMED_CS ?
                         m.try_lock_for(std::chrono::microseconds(a)) :
                         m.try_lock_until(
@@ -284,6 +315,8 @@ namespace {
             {
                 op.v[2] = r.range(0, 3);
                 op.v[3] = r.chance(1, 6) ? (int64_t) r.logu(1, 100) : 0;
+                // timed_mutex: half of the plain sections aim their unlock at a timed waiter's deadline
+                if (mkind == K_TIMED && k == OP_CS && r.chance(1, 2)) op.v[4] = 1 | ((int64_t) r.below(8) << 1);
             }
             p.push_back(op);
         }
@@ -302,6 +335,7 @@ namespace {
         if (!ctx.program_from_replay) ctx.program = gen(ctx, nparties, mkind);
         sim_config sc = draw_sim_config(ctx, 60000, FAULT_STALL | FAULT_CLOCKJUMP | FAULT_TRYFAIL);
         begin_sim(ctx, sc);
+        focus_select(ctx, c06_focus, 3);
         g_dump_hook = +[]() -> std::string {
             return pk::dump() +
                 sfmt(" | mutex model: occupancy=%d owner=%d blocked_lockers=%d sections=%llu",
@@ -350,10 +384,10 @@ namespace {
     void run_spin_conc(RunCtx& c) { run_kind<pika::concurrency::detail::spinlock>(c, K_SPIN_CONC); }
     void run_spin_ts(RunCtx& c) { run_kind<pika::detail::spinlock>(c, K_SPIN_TS); }
 
-    Registrar r1(Workload{"C06", "mutex", 30, run_mutex, pk::preload});
-    Registrar r2(Workload{"C06", "timed_mutex", 25, run_timed, pk::preload});
-    Registrar r3(Workload{"C06", "recursive_mutex", 20, run_recursive, pk::preload});
-    Registrar r4(Workload{"C06", "spinlock_concurrency", 13, run_spin_conc, pk::preload});
-    Registrar r5(Workload{"C06", "spinlock_thread_support", 12, run_spin_ts, pk::preload});
+    Registrar r1(Workload{"C06", "mutex", 25, run_mutex, pk::preload});
+    Registrar r2(Workload{"C06", "timed_mutex", 40, run_timed, pk::preload});
+    Registrar r3(Workload{"C06", "recursive_mutex", 15, run_recursive, pk::preload});
+    Registrar r4(Workload{"C06", "spinlock_concurrency", 10, run_spin_conc, pk::preload});
+    Registrar r5(Workload{"C06", "spinlock_thread_support", 10, run_spin_ts, pk::preload});
 
 }    // namespace
